@@ -269,5 +269,28 @@ func main() {
 			}
 			c.Sample(map[string]interface{}{"file": "two X25519 recipients", "identity": "passphrase"})
 		}
+
+		// a well-formed file without any recipient stanza (MAC and payload keyed with a file key an attacker can choose):
+		// no identity corresponds to a recipient of it
+		c.Part("file-without-recipients")
+		c.Bound("reference-built files with zero stanzas, keyed with the empty, the all-zero and an arbitrary 16-byte file key, decrypted with every identity type alone and in lists of 2 and 3")
+		if c.Shard == 0 {
+			idents := []idn{{"X0", keys.X(0).Id, true}, {"E0", keys.Ed(0).Id, false}, {"R0", keys.RSA(0).Id, false}, {"S", keys.Scrypt("pw", 1).Id, true}}
+			for ki, fk := range [][]byte{{}, make([]byte, 16), lab.Plain(16, 5)} {
+				file := refage.BuildFile(fk, nil, lab.Plain(16, 6), plain, refage.ChunkSizeV1)
+				for i, a := range idents {
+					id := fmt.Sprintf("nostanzas.k%d.%s", ki, a.name)
+					c.DistinctOnce(ev.HashStr(id))
+					judge(id, file, false, []idn{a}, "file without recipient stanzas")
+					for j, b := range idents {
+						judge(fmt.Sprintf("%s.%s", id, b.name), file, false, []idn{a, b}, "file without recipient stanzas")
+						if i == 0 && j > 0 {
+							judge(fmt.Sprintf("%s.%s.3", id, b.name), file, false, []idn{b, a, pool[0]}, "file without recipient stanzas")
+						}
+					}
+				}
+			}
+			c.Sample(map[string]interface{}{"file": "zero stanzas, MAC under the empty file key", "identity": "any"})
+		}
 	})
 }
